@@ -83,6 +83,7 @@ type GenOpts struct {
 	Shared      bool // allow the same child to be linked more than once
 	Raw         bool // allow raw leaf blocks
 	IdentityCid bool // allow identity-hash CIDs for small leaves
+	EmptyRaw    bool // allow the zero-length raw block as a leaf (draws extra random numbers only when set)
 }
 
 func DefaultOpts() GenOpts { return GenOpts{MaxBlocks: 9, Inline: true, Shared: true, Raw: true} }
@@ -117,6 +118,9 @@ func Gen(r *rand.Rand, o GenOpts) *DAG {
 			uniq++
 			if o.Raw && r.Intn(2) == 0 {
 				data := []byte(fmt.Sprintf("raw-leaf-%d-%d", uniq, r.Intn(1000)))
+				if o.EmptyRaw && r.Intn(3) == 0 {
+					data = []byte{}
+				}
 				pref := cid.Prefix{Version: 1, Codec: 0x55, MhType: mh.SHA2_256, MhLength: 32}
 				if o.IdentityCid && r.Intn(3) == 0 {
 					pref.MhType = mh.IDENTITY
